@@ -179,7 +179,35 @@ fn main() {
         let r0: &str = "héllo";
         let bs2: &str = std::borrow::Borrow::<str>::borrow(&r0);
         check!("borrow_str_str", bs2 == "héllo");
-        n_checks += 40;
+        // ---- C16 (spec/dig.spec.rs) ----
+        // verif_strip_suffix: Some(p) <=> s == p + suf; None <=> s does not end with suf
+        for s in ["A_out", "_out", "out", "A_outx", "é_out", "", "A_out_out"] {
+            let st = String::from(s);
+            match st.strip_suffix("_out") {
+                Some(p) => check!("strip_suffix some", format!("{}_out", p) == st),
+                None => check!("strip_suffix none", !st.ends_with("_out")),
+            }
+        }
+        // verif_name_set: collect::<HashSet<String>>() of the names = exactly the names
+        let names: Vec<String> = xs.iter().map(|x| format!("n{}", x)).collect();
+        let set: HashSet<String> = names.iter().map(|s| s.clone()).collect();
+        for c in 0..4 { let k = format!("n{}", c); check!("name_set", set.contains(&k) == names.contains(&k)); }
+        // verif_is_subset
+        let other: HashSet<String> = ys.iter().map(|y| format!("n{}", y)).collect();
+        check!("is_subset", set.is_subset(&other) == set.iter().all(|k| other.contains(k)));
+        // verif_set_into_vec: every element exactly once
+        let v: Vec<String> = set.clone().into_iter().collect();
+        check!("set_into_vec members", v.iter().all(|k| set.contains(k)) && set.iter().all(|k| v.contains(k)));
+        check!("set_into_vec distinct", (0..v.len()).all(|i| (i + 1..v.len()).all(|j| v[i] != v[j])));
+        // verif_find_mut: first element accepted, as a mutable borrow; nothing else changes
+        let mut ws = xs.clone();
+        let first = xs.iter().position(|x| *x == k);
+        match ws.iter_mut().find(|x| **x == k) { Some(m) => { *m = 99; } None => check!("find_mut none", first.is_none()) }
+        for i in 0..xs.len() { check!("find_mut frame", ws[i] == if Some(i) == first { 99 } else { xs[i] }); }
+        // verif_str_to_string / verif_position on a Vec
+        check!("str_to_string", "héllo".to_string() == String::from("héllo"));
+        check!("vec_position", xs.iter().position(|x| *x == k) == (0..xs.len()).find(|&i| xs[i] == k));
+        n_checks += 40 + 7 + 4 + 6;
     }
     println!("sanity ok: {} evaluations of assumed std specifications", n_checks);
 }
